@@ -561,6 +561,14 @@ impl Prioritize {
                     self.reclaim_frame(buffer, store, dst);
                 }
                 None => {
+                    // A stream taken from `pending_open` may have been
+                    // closed while it waited (a promised stream refused by
+                    // the peer): it produced no frame and its slot is free
+                    // again, so the next queued stream can be opened now.
+                    if counts.can_inc_num_send_streams() && !self.pending_open.is_empty() {
+                        continue;
+                    }
+
                     return Ok(BufferStatus::Complete);
                 }
             }
